@@ -218,6 +218,9 @@ def run(tier, r):
              "table_rows": {}, "fast_path_rejected": 0, "analytic_derivative_rejected": 0,
              "max_value_err": {}, "max_loc_err_over_range": {}, "max_L_rel_err": {}}
     for fam, args in mem:
+        if oc.common.past_oracle_cap() or len(violations) >= 60:
+            stats["stopped_early"] = "deep-search time cap or enough violations"
+            break
         res, err = oc.guarded(check_metadata, fam, args)
         if err is not None:
             violations.append({"property": "C18", "part": "metadata", "family": fam, "args": list(args), "tier": tier,
